@@ -148,6 +148,9 @@ def jobs(tier, seed):
             pats = flow_patterns(n, 2, tier, rng)
             if tier == 'quick':
                 pats = pats[:3]
+            else:
+                rng.shuffle(pats)
+                pats = pats[:9]
             for pi, pat in enumerate(pats):
                 for sort in (('int', 'real') if pi == 0 and tier != 'quick' else ('int',)):
                     cfg = {'kind': kind, 'rate': 8, 'table': t, 'flows': pat, 'sorts': sort}
